@@ -13,7 +13,8 @@ LEAN_TARGETS = ["Props.C03"]
 ANCHORS = ["cyecca/lie/group_so3.py", "cyecca/lie/group_se2.py", "cyecca/lie/group_se3.py", "cyecca/lie/group_se23.py",
            "cyecca/lie/direct_product.py"]
 MISSING = [
-    "DCM / Euler logs (acos of the trace, x/sin x series) as theorems — numeric search only",
+    "DCM / Euler logs (acos of the trace, x/sin x series) as theorems — numeric search only (quaternion and MRP forms: exp∘log, log∘exp, principal "
+    "angle are theorems on the closed-form cells)",
     "SE(3)/SE_2(3) translation part (J^-1 J = 1 from C05) composed into exp(log X) = X — numeric search only",
     "Taylor cells: identities up to the truncation bound — numeric search only",
 ]
